@@ -4,6 +4,9 @@ package main
 // SMT-LIB2 printer. One TermFactory per worker (no locking).
 
 import (
+	"crypto/sha256"
+	"encoding/base64"
+	"encoding/hex"
 	"fmt"
 	"sort"
 	"strings"
@@ -391,6 +394,13 @@ func (f *TermFactory) Eq(x, y *Term) *Term {
 			}
 			return x.tok.eqTerm(f, y.tok)
 		}
+		// a token whose pre-image is fully concrete has a known digest: compare the real byte
+		if cx, ok := f.tokConcrete(x); ok {
+			return f.Eq(cx, y)
+		}
+		if cy, ok := f.tokConcrete(y); ok {
+			return f.Eq(x, cy)
+		}
 		return f.False
 	}
 	if x.w == 0 {
@@ -457,6 +467,17 @@ func (f *TermFactory) Bin(op Op, x, y *Term) *Term {
 		return f.Const(w, evalOp(op, w, x.w, x.val, y.val, 0))
 	}
 	if x.tok != nil || y.tok != nil {
+		cx, okx := f.tokConcrete(x)
+		cy, oky := f.tokConcrete(y)
+		if (x.tok == nil || okx) && (y.tok == nil || oky) {
+			if okx {
+				x = cx
+			}
+			if oky {
+				y = cy
+			}
+			return f.Bin(op, x, y)
+		}
 		panic(unsupported("arithmetic on hash token bytes"))
 	}
 	switch op {
@@ -517,6 +538,9 @@ func (f *TermFactory) Un(op Op, x *Term) *Term {
 		return f.Const(x.w, evalOp(op, x.w, x.w, x.val, 0, 0))
 	}
 	if x.tok != nil {
+		if cx, ok := f.tokConcrete(x); ok {
+			return f.Un(op, cx)
+		}
 		panic(unsupported("arithmetic on hash token bytes"))
 	}
 	return f.mk(op, x.w, 0, "", x)
@@ -528,6 +552,9 @@ func (f *TermFactory) Resize(x *Term, w uint8, signed bool) *Term {
 		return x
 	}
 	if x.tok != nil {
+		if cx, ok := f.tokConcrete(x); ok {
+			return f.Resize(cx, w, signed)
+		}
 		panic(unsupported("conversion of hash token bytes"))
 	}
 	if w < x.w {
@@ -759,6 +786,45 @@ type Token struct {
 	layer string
 	pre   []*Term // pre-image bytes (BV8 terms)
 	eqs   map[int]*Term
+	conc  []byte // real rendering when the pre-image is fully concrete (lazily computed)
+	concN bool   // conc was attempted
+}
+
+// tokConcrete: the byte of a hash token whose pre-image holds no symbolic byte is the byte of
+// the real SHA-256 digest (in the token's rendering): arithmetic and comparisons with ordinary
+// bytes are then exact instead of unsupported.
+func (f *TermFactory) tokConcrete(x *Term) (*Term, bool) {
+	if x == nil || x.op != OpVar || x.tok == nil {
+		return nil, false
+	}
+	t := x.tok
+	if !t.concN {
+		t.concN = true
+		pre := make([]byte, len(t.pre))
+		ok := true
+		for i, p := range t.pre {
+			if !p.IsConst() {
+				ok = false
+				break
+			}
+			pre[i] = byte(p.val)
+		}
+		if ok {
+			d := sha256.Sum256(pre)
+			switch t.layer {
+			case "raw":
+				t.conc = d[:]
+			case "b64":
+				t.conc = []byte(base64.StdEncoding.EncodeToString(d[:]))
+			case "hex":
+				t.conc = []byte(hex.EncodeToString(d[:]))
+			}
+		}
+	}
+	if t.conc == nil || x.tokIdx >= len(t.conc) {
+		return nil, false
+	}
+	return f.Const(8, uint64(t.conc[x.tokIdx])), true
 }
 
 func (a *Token) eqTerm(f *TermFactory, b *Token) *Term {
